@@ -202,7 +202,12 @@ def post_ctx(case, r, res, obs):
     return []
 
 
+OPASSIGN_SET = None
+
+
 def run(rep, tier):
+    global OPASSIGN_SET
+    OPASSIGN_SET = set(OPASSIGN)
     from .. import scale
     scale.run(rep, PROP, tier)          # size ladders (seedverif/scale.py): the entries that concern this property
     descs = []
@@ -212,6 +217,12 @@ def run(rep, tier):
                 descs.append(("op", "plain", op, lk, rk))
                 if lk == rk and lk in ("list", "object", "func"):
                     descs.append(("op", "plain", op, lk, rk, True))     # the same cell on both sides
+                if lk == rk:
+                    # equal operands (built twice, and one variable used twice): the kinds decide, not the values
+                    for v in range(3):
+                        descs.append(("op", "plain", op, lk, rk, False, v, v))
+                    descs.append(("op", "plain", op, lk, rk, True, 1, 1))
+                    descs.append(("op", "var", op, lk, rk, False, 0, 0) if op in OPASSIGN_SET else ("op", "plain", op, lk, rk, True, 2, 2))
     for form in ("var", "elem", "prop"):
         for op in OPASSIGN:
             for lk in KINDS:
